@@ -4,3 +4,4 @@ import AscentVerif.Props.C17
 import AscentVerif.Props.C16Basic
 import AscentVerif.Props.C16Struct
 import AscentVerif.Model.Index
+import AscentVerif.Props.C19
